@@ -686,6 +686,7 @@ def rtc_zoo(case_names, tier):
         dn = str(default)[6:]
         for label, c, op, dense in zoo.instances(tier, names=case_names, batches=batches, sizes=sizes):
             lab = f"{label}|default={dn}"
+            torch.manual_seed(zlib.crc32(lab.encode()) % (2**31))  # library-internal random draws: reproducible
             if op is None:
                 rec.check(f"construct/{c.name}", lab, False, f"constructor raised {dense!r}")
                 continue
@@ -711,6 +712,7 @@ def rtc_local(names, tier):
                     continue
                 lab = f"local_{name}|{str(dt)[6:]}|b={b}|n={n}|default={dn}"
                 g = zoo.gen(zlib.crc32(repr((name, str(dt), b, n)).encode()) % (2**31))
+                torch.manual_seed(zlib.crc32(lab.encode()) % (2**31))
                 ok, res = rec.guard(f"construct/local_{name}", lab, lambda: cases[name](g, dt, tuple(b), n))
                 if not ok:
                     continue
